@@ -1652,25 +1652,67 @@ func (e *Engine) addObl(fr *Frame, kind, label string, props []string, pc, goal 
 	if e.quiet > 0 || (fr != nil && fr.clause) {
 		return
 	}
-	// a conjunction is split into one obligation per conjunct (sharper
-	// reports, smaller queries)
-	if goal.Op == "and" && len(goal.Args) <= 24 && (kind == "ensures" || kind == "inv-init" || kind == "inv-step" || kind == "requires") {
-		for i, g := range goal.Args {
-			e.addObl(fr, kind, fmt.Sprintf("%s.%d", label, i+1), props, pc, g, pos)
-		}
-		return
-	}
-	// implies(c, a && b) likewise
-	if goal.Op == "or" && len(goal.Args) == 2 && (kind == "ensures" || kind == "inv-init" || kind == "inv-step") {
-		for k := 0; k < 2; k++ {
-			if goal.Args[k].Op == "and" && len(goal.Args[k].Args) <= 24 {
-				for i, g := range goal.Args[k].Args {
-					e.addObl(fr, kind, fmt.Sprintf("%s.%d", label, i+1), props, pc, Or(goal.Args[1-k], g), pos)
-				}
-				return
+	// a goal that is a conjunction (possibly under implications and universal
+	// quantifiers) is split into one obligation per conjunct: sharper reports,
+	// smaller queries
+	if kind == "ensures" || kind == "inv-init" || kind == "inv-step" || kind == "requires" {
+		if parts := splitGoal(goal, 0); len(parts) > 1 && len(parts) <= 40 {
+			for i, g := range parts {
+				e.addOblOne(fr, kind, fmt.Sprintf("%s.%d", label, i+1), props, pc, g, pos)
 			}
+			return
 		}
 	}
+	e.addOblOne(fr, kind, label, props, pc, goal, pos)
+}
+
+func splitGoal(g *Term, depth int) []*Term {
+	if depth > 6 {
+		return []*Term{g}
+	}
+	switch g.Op {
+	case "and":
+		var out []*Term
+		for _, a := range g.Args {
+			out = append(out, splitGoal(a, depth+1)...)
+		}
+		return out
+	case "or":
+		// distribute over the (single) splittable disjunct
+		for k, a := range g.Args {
+			if a.Op != "and" && a.Op != "forall" {
+				continue
+			}
+			parts := splitGoal(a, depth+1)
+			if len(parts) <= 1 {
+				continue
+			}
+			var rest []*Term
+			for j, b := range g.Args {
+				if j != k {
+					rest = append(rest, b)
+				}
+			}
+			var out []*Term
+			for _, p := range parts {
+				out = append(out, Or(append(append([]*Term{}, rest...), p)...))
+			}
+			return out
+		}
+	case "forall":
+		parts := splitGoal(g.Args[0], depth+1)
+		if len(parts) > 1 {
+			var out []*Term
+			for _, p := range parts {
+				out = append(out, Forall(g.Bound, p))
+			}
+			return out
+		}
+	}
+	return []*Term{g}
+}
+
+func (e *Engine) addOblOne(fr *Frame, kind, label string, props []string, pc, goal *Term, pos string) {
 	ctx := ""
 	if fr != nil {
 		ctx = fr.path + fr.iter
